@@ -8,8 +8,10 @@ tie    : pba.normal/lognormal/exponential/gumbel_r/logistic/laplace/rayleigh/gam
          ppf/stats values at the corners are computed by the harness (own family table) and sent as a
          table keyed by the corner, the model does parsing, corner enumeration, envelope, moment hulls
 oracle : member distributions (all corners, centre, face midpoints, random interior points): quantiles
-         at the 200 grid levels inside [left,right], mean/var inside the intervals; point parameters
-         give left == right == scipy's quantile; valid boxes must not raise
+         at the 200 grid levels inside [left,right], mean/var inside the intervals (the family's when the
+         code hands them over; when it leaves them to the constructor — moments not fitting the discretised
+         support — the library's real LP moments are computed for a budgeted subset and judged the same way);
+         point parameters give left == right == scipy's quantile; valid boxes must not raise
 """
 from __future__ import annotations
 import itertools, math, json
@@ -126,10 +128,11 @@ def canon(p):
     L = [float(x) for x in np.asarray(p.left, dtype=float)]
     R = [float(x) for x in np.asarray(p.right, dtype=float)]
     stub = bool(getattr(p, "_c09_stub", False))
+    real = bool(getattr(p, "_c09_real", False))
     mom = None
     if not stub:
         mom = [float(p.mean.lo), float(p.mean.hi), float(p.var.lo), float(p.var.hi)]
-    return ("ok", L, R, mom)
+    return ("ok", L, R, mom, real)
 
 
 def run_impl(c):
@@ -151,7 +154,12 @@ def run_impl_real_moments(c):
     """same call with the library's own moment computation (LP) in place of the harness stub"""
     from pyuncertainnumber.pba.pbox_abc import Staircase
     cur = Staircase._init_moments
-    Staircase._init_moments = Staircase._verif_real_init_moments
+    realf = Staircase._verif_real_init_moments
+
+    def real(self):
+        realf(self)
+        self._c09_real = True
+    Staircase._init_moments = real
     try:
         return run_impl(c)
     finally:
@@ -258,7 +266,7 @@ def parse_model(s):
     if t[0] == "err":
         return ("err", t[1])
     if t[0] == "ok":
-        return ("ok", unql(t[1]), unql(t[2]), [unq(x) for x in t[3:7]])
+        return ("ok", unql(t[1]), unql(t[2]), None if t[3] == "none" else [unq(x) for x in t[3:7]])
     return ("bad", s)
 
 
@@ -282,10 +290,14 @@ def agrees(c, impl, model):
     for a, m in zip(impl[1] + impl[2], model[1] + model[2]):
         if not math.isfinite(a) or not eq(a, m):
             return False
-    if impl[3] is not None:
-        for a, m in zip(impl[3], model[3]):
-            if not math.isfinite(a) or not eqm(a, m):
-                return False
+    derived = impl[3] is None or bool(impl[4])       # the constructor derived the moments itself (stub or LP)
+    if model[3] is None:
+        return derived                                # model: mean = var = None were handed over
+    if derived:
+        return False
+    for a, m in zip(impl[3], model[3]):
+        if not math.isfinite(a) or not eqm(a, m):
+            return False
     return True
 
 
@@ -508,6 +520,11 @@ def gen_cases(ctx):
         for k in range(0, len(order)):
             cases.append({"kind": "par", "fam": fam, "pos": [["L", list(base[n])] for n in order[:k]], "kw": [], "stream": "grid-arity"})
         cases.append({"kind": "par", "fam": fam, "pos": [["L", list(base[n])] for n in order] + [["L", [1, 2]]], "kw": [], "stream": "grid-arity"})
+    # family moments that do not fit the discretised support [ppf(0.001), ppf(0.999)]: the constructor derives the
+    # moments from the bounds (witnesses of KF-C09-lognormal-derived-moments; run with the library's real moment code)
+    for mu, sg in [((0, 0), (3, 3)), ((0, 1), (3, 4)), ((0, 0), (3.5, 3.5))]:
+        cases.append({"kind": "par", "fam": "lognormal", "pos": [["L", list(mu)], ["L", list(sg)]], "kw": [],
+                      "stream": "derived-moments", "mom": True})
     # keyword parameters (exponential, rayleigh): witnesses of KF-C09-kw-drops-positional
     for fam in ("exponential", "rayleigh"):
         cases.append({"kind": "par", "fam": fam, "pos": [["L", [1, 2]]], "kw": [["scale", ["L", [1, 2]]]], "stream": "kw"})
@@ -582,6 +599,7 @@ def gen_cases(ctx):
 def features(c, impl, check):
     return {"kind": c["kind"], "fam": c.get("fam", c["kind"]), "check": check, "npos": len(c["pos"]), "nkw": len(c["kw"]),
             "kwnames": "+".join(n for n, _ in c["kw"]), "stream": c["stream"],
+            "moments_source": "none" if impl[0] == "err" else ("derived" if (impl[3] is None or impl[4]) else "handed-over"),
             "symptom": ("raises:" + impl[1]) if impl[0] == "err" else "value"}
 
 
@@ -609,7 +627,10 @@ def run(ctx: core.Check, cases=None):
     ctx.assumptions = ["scipy ppf/stats values at the corners are computed by the harness with its own family table and sent to the model",
                        "monotonicity of the gamma quantile in its shape parameter is an assumption of the theorem, validated numerically by the oracle",
                        "binary64 rounding is not modelled: envelope and moment hulls are compared exactly (min/max of supplied values), "
-                       "linspace and 1/lambda within a few ulp", "string parameters and vector Interval parameters are not exercised"]
+                       "linspace and 1/lambda within a few ulp",
+                       "moments derived by the constructor itself (family moments not fitting the discretised support) are not modelled: "
+                       "the model answers 'none', the oracle judges the library's real values on a budgeted subset",
+                       "string parameters and vector Interval parameters are not exercised"]
     ctx.lean_stage(["Pun.Props.C09"])
     _mark_stub()
     from pyuncertainnumber.pba.params import Params
@@ -618,6 +639,7 @@ def run(ctx: core.Check, cases=None):
     if cases is None:
         cases = gen_cases(ctx)
     n_rand = ctx.scale(10, 40)
+    real_budget = [ctx.scale(12, 60)]
     CH = 250
     for s0 in range(0, len(cases), CH):
         chunk = cases[s0:s0 + CH]
@@ -625,11 +647,18 @@ def run(ctx: core.Check, cases=None):
         for c, rep in zip(chunk, replies):
             stream = c["stream"]
             impl = run_impl(c)
-            if c.get("mom") and impl[0] == "ok" and impl[3] is None:
-                impl = run_impl_real_moments(c)      # the library's own moments (only when it computes them by LP)
+            if impl[0] == "ok" and impl[3] is None and (c.get("mom") or (c["kind"] == "par" and real_budget[0] > 0)):
+                # the constructor derived the moments itself: use the library's own moment code (LP, ~1 s) instead of
+                # the stub so that the oracle judges what a user sees; budgeted for the random streams
+                if not c.get("mom"):
+                    real_budget[0] -= 1
+                impl = run_impl_real_moments(c)
             ctx.count(json.dumps(case_json(c), sort_keys=True, default=str), "malformed" not in stream, stream)
             ctx.bump("fam:" + c.get("fam", c["kind"]))
             ctx.bump("impl:" + (impl[1] if impl[0] == "err" else "value"))
+            if impl[0] == "ok":
+                ctx.bump("moments:" + ("derived-by-constructor(LP,checked)" if impl[4] else
+                                       "derived-by-constructor(stubbed,unchecked)" if impl[3] is None else "handed-over(checked)"))
             model = parse_model(rep)
             if agrees(c, impl, model):
                 ctx.tie_ok()
